@@ -290,9 +290,10 @@ class PoolWorld(object):
         self.direct_events.append(('borrowed', uid, conn.sim_id, rid))
         if was_shutdown:
             self.viol.append(('borrow-succeeded-after-shutdown', 'borrow_connection on a pool that was already shut down returned conn %d stream %d' % (conn.sim_id, rid)))
-        if conn.in_flight > conn.max_request_id + 1:
-            self.viol.append(('borrow-beyond-capacity', 'borrow_connection returned conn %d with in_flight=%d, capacity %d' % (
-                conn.sim_id, conn.in_flight, conn.max_request_id + 1)))
+        if conn.in_flight > conn.max_request_id:
+            # every reservation in the pools tests ``in_flight < max_request_id`` first: a pool hands out at most max_request_id streams of a connection
+            self.viol.append(('borrow-beyond-capacity', 'borrow_connection (timeout %s) returned conn %d with in_flight=%d, the pool\'s capacity per connection is '
+                              'max_request_id=%d' % (timeout, conn.sim_id, conn.in_flight, conn.max_request_id)))
         if rid in conn._requests or rid in conn.orphaned_request_ids:
             self.viol.append(('borrow-returned-stream-in-use', 'borrow_connection returned stream %d of conn %d which is still in use' % (rid, conn.sim_id)))
 
